@@ -337,7 +337,7 @@ def _load_yaml_or_json(data: bytes, content_type: Optional[str]) -> Union[dict[s
         try:
             yaml = YAML(typ="safe")
             return yaml.load(data)
-        except YAMLError as err:
+        except (YAMLError, ValueError, RecursionError) as err:  # ValueError: e.g. an integer beyond the digit limit
             return GeneratorError(header=f"Invalid YAML from provided source: {err}")
 
 
